@@ -36,7 +36,10 @@ type c19Cfg struct {
 	Redial bool `json:"redial,omitempty"`
 	// Ctx: 1 the caller's context is cancelled while the dial is in flight and the dialer still hands out a live
 	// connection; 2 the caller's context has a deadline that expires while the dial is in flight
-	Ctx    int `json:"ctx,omitempty"`
+	Ctx int `json:"ctx,omitempty"`
+	// DLFail > 0: the transport stops supporting deadlines — Set*Deadline fails from its DLFail-th call on (1 = the
+	// very first call, right after the dial)
+	DLFail int `json:"dlfail,omitempty"`
 	BadMsg int `json:"badmsg,omitempty"` // DialAndSend: 1 = message without recipients, 2 = 8bit message (server has no... it has 8BITMIME) with failing body writer, 3 = nil message only
 }
 
@@ -103,6 +106,9 @@ func c19Exec(r *vf.Run, cfg c19Cfg, c *vf.Chooser) (keys, whats []string) {
 		conn.TLSMode = refsmtp.TLSGarbage
 	case 3:
 		conn.TLSMode = refsmtp.TLSDrop
+	}
+	if cfg.DLFail > 0 {
+		conn.DeadlineFailAfter = cfg.DLFail - 1
 	}
 	trace := &sasl.Trace{}
 	sess.NewAuth = saslFactory(conn, c19User, c19Pass, trace)
@@ -284,6 +290,9 @@ func c19Exec(r *vf.Run, cfg c19Cfg, c *vf.Chooser) (keys, whats []string) {
 	if cfg.Fallback && handed {
 		r.Outcome("reached/fallback-connection")
 	}
+	if cfg.DLFail > 0 && opErr != nil && opened {
+		r.Outcome(fmt.Sprintf("reached/deadline-call-%d-failed", cfg.DLFail))
+	}
 	if opErr != nil && opened && closed {
 		r.Outcome("reached/closed-after-failure/tls=" + c19TLSNames[cfg.TLS])
 	}
@@ -302,7 +311,7 @@ func init() {
 	vf.Register(&vf.Check{
 		ID: "C19", Title: "no connection outlives a failed operation",
 		Run: func(r *vf.Run) {
-			r.SetRule("reply ∈ {ok, 4yz, 5yz, drop, garbage, ok-but-the-next-client-write-fails, 421 followed by a disconnect} at every step of dial and dial-and-send (greeting, EHLO, HELO fallback, STARTTLS, each AUTH step, NOOP, MAIL, RCPT, DATA, end-of-data, RSET, QUIT) up to the deviation bound × TLS policy {mandatory, opportunistic, none, implicit} × handshake {ok, wrong-name certificate, garbage, drop} × STARTTLS advertised or not × auth {none, PLAIN, LOGIN, CRAM-MD5, SCRAM-SHA-256, XOAUTH2, auto-discover, mechanism not offered, HELO name containing CR, SCRAM-SHA-256-PLUS}; plus the same calls with a caller context that is cancelled while the dial is in flight (the dialer still hands out a live connection), and on a Client that is already connected (whatever it then does with the earlier connection is answered {ok, 5yz, drop}); oracle: Close() was called on the fake connection by the time the failing call returns; distinct by (configuration, script)")
+			r.SetRule("reply ∈ {ok, 4yz, 5yz, drop, garbage, ok-but-the-next-client-write-fails, 421 followed by a disconnect} at every step of dial and dial-and-send (greeting, EHLO, HELO fallback, STARTTLS, each AUTH step, NOOP, MAIL, RCPT, DATA, end-of-data, RSET, QUIT) up to the deviation bound × TLS policy {mandatory, opportunistic, none, implicit} × handshake {ok, wrong-name certificate, garbage, drop} × STARTTLS advertised or not × auth {none, PLAIN, LOGIN, CRAM-MD5, SCRAM-SHA-256, XOAUTH2, auto-discover, mechanism not offered, HELO name containing CR, SCRAM-SHA-256-PLUS}; plus a transport on which Set*Deadline fails from the 1st / 2nd / 3rd call on; plus the same calls with a caller context that is cancelled while the dial is in flight (the dialer still hands out a live connection), and on a Client that is already connected (whatever it then does with the earlier connection is answered {ok, 5yz, drop}); oracle: Close() was called on the fake connection by the time the failing call returns; distinct by (configuration, script)")
 			r.Assume("'closed' means net.Conn.Close was called on the connection the dial function handed out (or on a TLS wrapper around it)")
 			bound := 2
 			if r.Thorough {
@@ -331,6 +340,12 @@ func init() {
 								cfgs = append(cfgs, c19Cfg{TLS: tlsm, Auth: a, Send: send, HSBad: hs, NoSTL: nostl})
 								if tlsm == 1 && hs == 0 && (a == 0 || a == 1) {
 									cfgs = append(cfgs, c19Cfg{TLS: tlsm, Auth: a, Send: send, HSBad: hs, NoSTL: nostl, Fallback: true})
+								}
+								if hs == 0 && !nostl && a <= 1 && tlsm != 3 {
+									// a transport whose deadline support fails at the 1st / 2nd / 3rd call
+									for dl := 1; dl <= 3; dl++ {
+										cfgs = append(cfgs, c19Cfg{TLS: tlsm, Auth: a, Send: send, DLFail: dl})
+									}
 								}
 								if hs == 0 && !nostl && a <= 1 {
 									// the caller's context ends while the dial is in flight, the connection is handed out anyway
@@ -382,7 +397,7 @@ func init() {
 					}
 				})
 			})
-			r.Reached("reached/redial-judged", "reached/context-cancelled-during-dial", "reached/fallback-connection", "reached/closed-after-failure/tls=mandatory", "reached/closed-after-failure/tls=opportunistic",
+			r.Reached("reached/deadline-call-1-failed", "reached/redial-judged", "reached/context-cancelled-during-dial", "reached/fallback-connection", "reached/closed-after-failure/tls=mandatory", "reached/closed-after-failure/tls=opportunistic",
 				"reached/closed-after-failure/tls=none", "reached/closed-after-failure/tls=implicit", "dial-ok", "dialandsend-ok")
 		},
 		Replay: func(r *vf.Run, kase json.RawMessage) {
